@@ -1830,3 +1830,27 @@ def c14_twins_search(rp, seed):
         if bad:
             return r2, msg
     return None
+
+
+@checker("c12_second")
+def c12_second(rp):
+    """a second instance (other beta) of the class, used after a first one, against a fresh process-independent closed form"""
+    from pyvc.specs import predict as PS
+    name = rp["model"]
+    M = model_cls(name)
+    X = PS.FloatX()
+    for (b1, b2) in ((25 / 6, 1.0), (25 / 6, 0.5), (1.0, 25 / 6)):
+        teams = mk_game(name, rp["game"])
+        getattr(M(beta=b1), rp["op"])(teams)
+        got = getattr(M(beta=b2), rp["op"])(mk_game(name, rp["game"]))
+        gm = [[(p.mu, p.sigma) for p in t] for t in teams]
+        if rp["op"] == "predict_win":
+            g, w = got, PS.win(gm, b2, X)
+        elif rp["op"] == "predict_draw":
+            g, w = [got], [PS.draw(gm, b2, X)]
+        else:
+            g, w = [p for (_r, p) in got], PS.rank_probabilities(gm, b2, X)
+        for a, b in zip(g, w):
+            if abs(a - b) > 1e-9 or not (-1e-12 <= a <= 1 + 1e-9):
+                return True, f"{name}(beta={b2}).{rp['op']} after {name}(beta={b1}).{rp['op']}: {g} ; closed form {w}"
+    return False, "instances do not influence each other"
